@@ -274,9 +274,9 @@ class SSH_Socket(ReadBuf, WriteBuf):
                 header.write_byte(padding_length)
                 payload_length = packet_length - padding_length - 1
                 check_size = 4 + 1 + payload_length + padding_length
-            if check_size % self.__block_size != 0:
-                self.__outputbuffer.fail('[exception] invalid ssh packet (block size)').write()
-                sys.exit(exitcodes.CONNECTION_ERROR)
+            # A malformed length must not end the whole program (this may be a probe connection, or one of many targets); report it to the caller like any other read error.
+            if (check_size % self.__block_size != 0) or (payload_length < (5 if sshv == 1 else 1)):
+                return -1, b'invalid ssh packet (block size)'
             self.ensure_read(payload_length)
             if sshv == 1:
                 payload = self.read(payload_length - 4)
